@@ -348,6 +348,20 @@ def specDecode : Nat → Bytes → List Request
 destination, 128 for IPv6; `data` is `dataSize` random bytes (an input of the model) -/
 def requestType (r : Request) : Nat := if r.dest.isV6 then 128 else 8
 
+/-- what leaves the endpoint for a request (`IcmpSink::write`: `set_socket_ttl`, then `send_to`): the echo
+message of `requestType` with the record's identifier and sequence number and `dataSize` data bytes, sent
+to the record's destination with the record's TTL (IPv4) / hop limit (IPv6) -/
+structure Outgoing where
+  dest : Ip.Ip
+  hopLimit : Nat
+  typeId : Nat
+  id : Nat
+  seq : Nat
+  dataLen : Nat
+deriving Repr, DecidableEq
+
+def outgoing (r : Request) : Outgoing := ⟨r.dest, r.ttl, requestType r, r.id, r.seq, r.dataSize⟩
+
 /-! ### 7.4 reply encoder (`http_icmp_codec::Encoder::encode_packet`) -/
 
 def Msg.typeId : Msg → Nat
